@@ -637,6 +637,32 @@ pub fn run(cfg: &Cfg, trim: bool) -> (&'static str, Report, String, String) {
         }
         r.ev("planted-long-haystack");
     }));
+    // very long needles (tables indexed by a narrow integer: 255/256/257, 511..513, 1000) with a failing
+    // window before the match: needle = filler^(m-1) + 'y', haystack = filler^k + needle + tail
+    let longn: &[usize] = if cfg.miri() { &[] } else { &[127, 128, 129, 255, 256, 257, 258, 300, 511, 512, 513, 1000] };
+    rep.merge(par_for(cfg, longn.len(), |w, r| {
+        let m = longn[w];
+        for fill in ["x", "ñ"] {
+            let body: String = fill.repeat(m - 1);
+            let n = format!("{}y", body);
+            for k in 0..4 {
+                for tail in ["", "--", "yy"] {
+                    let h = format!("{}{}{}", fill.repeat(k), n, tail);
+                    pair(r, trim, &h, &n);
+                    // near miss only
+                    let h2 = format!("{}{}z{}", fill.repeat(k), body, tail);
+                    pair(r, trim, &h2, &n);
+                }
+            }
+            // needle that ends in the middle of a longer run, reversed structure for the r* functions
+            let n2 = format!("y{}", body);
+            for k in 0..3 {
+                let h = format!("--{}{}", n2, fill.repeat(k));
+                pair(r, trim, &h, &n2);
+            }
+        }
+        r.ev("very-long-needles");
+    }));
     if trim {
         rep.merge(whitespace(cfg));
     }
